@@ -130,7 +130,8 @@ func (s *State) extendMacroEnv(macro *object.Macro, args []object.Quote) *State 
 	extended := object.NewEnclosedEnvironment(macro.Env)
 
 	for paramIdx, param := range macro.Parameters {
-		extended.Set(param.Value().Literal(), args[paramIdx])
+		// A binding of this expansion only: Set would update a macro (or anything else) of the same name found outside.
+		extended.SetNoChecks(param.Value().Literal(), args[paramIdx], true)
 	}
 	// The macro body is evaluated with the limits, output and extensions of the state expanding it
 	// (a bare State has MaxDepth 0 and no writer: any call or print in the body panicked).
